@@ -30,9 +30,23 @@ def declare(rep):
     rep.rule("C15.atomic-accumulator", "each component update of vec3::translate is an OpenMP atomic update in the program as built", floor=6)
 
 
+LATENT_OPENMP = True
+
+
 def run(rep, prog, tier):
     if not rep.rules:
         declare(rep)
+    _run(rep, prog, tier, None)
+    lat = getattr(prog, "latent", None)
+    if lat is not None:
+        # units built without -fopenmp whose own '#pragma omp' lines are ignored by the product build: the region rules are also
+        # decided on what those pragmas state (the same source parsed with -fopenmp), for the functions of those units only
+        _run(rep, lat, tier, set(prog.latent_units))
+
+
+def _run(rep, prog, tier, only_units):
+    import os
+    from ..extract import REPO
     S = e1.Summaries(prog)
     X = e2.Exceptions(prog)
     E = F.Effects(prog)
@@ -40,6 +54,8 @@ def run(rep, prog, tier):
     nreg = 0
     for fn in product_fns(prog):
         if not isinstance(fn.get("body"), dict):
+            continue
+        if only_units is not None and os.path.relpath(fn.get("file", ""), REPO) not in only_units:
             continue
         regs = list(e6.parallel_regions(prog, fn))
         for reg in regs:
@@ -65,6 +81,11 @@ def run(rep, prog, tier):
             bad = {}
             for r in recs:
                 if r["cls"] in ("shared", "shared-local"):
+                    if only_units is not None and r["cls"] == "shared":
+                        # latent units: the lower-id-cell-owns-the-pair protocol of the integrator is not modelled (and the
+                        # product runs these loops serially); only writes to variables declared outside the region are decided
+                        r["cls"] = "not-decided(latent)"
+                        continue
                     if _iota_own_slot(prog, fn, reg, r):
                         r["cls"] = "own"
                         continue
@@ -95,6 +116,8 @@ def run(rep, prog, tier):
             rep.violation("C15.shared-resize", prog, fn, xs[0]["access"], fp,
                           "'%s' is resized by %s (line %s) inside the OpenMP parallel region at line %s while other threads read it outside that critical section at line(s) %s: the population list is read while another thread is resizing it"
                           % (cname, callee, xs[0]["resize"].get("l"), xs[0]["region"].get("l"), ",".join(sorted({str(x["access"].get("l")) for x in xs}))))
+    if only_units is not None:
+        return
     if nreg < 8:
         raise AnalysisBroken("only %d parallel regions found" % nreg)
     atomic_accumulator(rep, prog)
